@@ -78,6 +78,12 @@ var c17TreeFiles = []string{
 	// they name: next to the list, below it, above it.
 	"inc/main.txt", "inc/main.txt.bak", "inc/sibling.lst", "inc/private/extra.rules",
 	"inc/nested/main.txt", "inc/nested/other.txt", "inc/nested/deeper/x.txt",
+	// Names for the corner cases of the filepath.Match syntax (classes that
+	// begin with '!' or '^', escaped metacharacters, '-' and ']' in classes):
+	// for every pattern of the "match-syntax" lists some of these match it as
+	// configured and others only under another reading of the same text.
+	"cls/a.txt", "cls/b.txt", "cls/p.txt", "cls/z.txt", "cls/!.txt", "cls/^.txt", "cls/-.txt", "cls/].txt",
+	"cls/*.txt", "cls/?.txt", `cls/\.txt`, "cls/a].txt", "cls/secret.txt", "cls/public.txt", "cls/!readme.txt",
 	"lists2/a.txt", "lists2/sub/e.txt",
 	"secret/c.txt", "secret/a.txt", "secret/key.pem",
 	"secret/deep/k.txt", "secret/deep/a.txt",
@@ -711,6 +717,23 @@ func c17PatternPool(r string) (fixed []c17Cfg, pool []string) {
 		{"malformed-pattern", []string{p("lists/[a-"), p("lists/b.txt")}},
 		{"malformed-pattern", []string{p("lists/a.txt"), p(`secret/*\`)}},
 		{"malformed-pattern", []string{p("[]")}},
+		// In Go's syntax '-' and ']' must be escaped inside a class.
+		{"malformed-pattern", []string{p("cls/[-a].txt")}},
+		{"malformed-pattern", []string{p("cls/[a-].txt")}},
+		{"malformed-pattern", []string{p("cls/[]a].txt")}},
+		// The whole filepath.Match syntax, pattern text AS CONFIGURED.  The
+		// patterns of one list do not mask each other: what another reading
+		// of one of them would admit, no other pattern of the list admits.
+		//   [!p]   is the class of '!' and 'p' (not a negation);
+		//   [a\-c] is 'a', '-', 'c' (not a range); \* \? \\ are literals.
+		{"match-syntax:bang-literal,escapes", []string{p("cls/[!p].txt"), p(`cls/[a\-c].txt`), p(`cls/\*.txt`), p(`cls/\?.txt`),
+			p(`cls/[\]].txt`), p(`cls/\\.txt`)}},
+		{"match-syntax:bang-class-then-star", []string{p("cls/[!p]*.txt")}},
+		{"match-syntax:bang-range,meta-in-class", []string{p("cls/[!a-b].txt"), p("cls/[*].txt"), p("cls/[?].txt")}},
+		{"match-syntax:reversed-range,caret-not-first,posix-class", []string{p("cls/[p-a].txt"), p("cls/[a^].txt"), p(`cls/[\^z].txt`),
+			p("cls/[[:alpha:]].txt")}},
+		{"match-syntax:caret-negation", []string{p("cls/[^p].txt")}},
+		{"match-syntax:caret-negated-range-then-star", []string{p("cls/[^a-p]*.txt"), p("cls/[^!].txt")}},
 		{"malformed-pattern", []string{p("lists/*"), p("lists/*/[a-")}},
 	}
 	pool = []string{
@@ -720,6 +743,7 @@ func c17PatternPool(r string) (fixed []c17Cfg, pool []string) {
 		p("lists/sub/*"), p("lists/sub/deep/?.txt"), p("lists2/*"), p("*/a.txt"), p("*/*.txt"), p("*/*/*.txt"),
 		p("*/*/*/*.txt"), p("*/*/*/*/*.txt"), p("l*/sub/*"), p("*.txt"), p("top.txt"), p("cwd/lists/*"),
 		p("x/*"), p("lists/*.dat"), p("lists/*.bak"), p("secret/*.pem"),
+		p("cls/[!p]*.txt"), p("cls/[!a-b].txt"), p(`cls/\*.txt`), p("cls/[^p].txt"), p(`cls/[a\-c].txt`), p("cls/[!s]*"),
 		p("lists/????????.txt"), p("lists/sub?e.txt"), p("lists?a.txt"), p("lists/sub[^a]e.txt"), p("lists/*[^a]e.txt"),
 		p("lists/[a-z]??/[a-z]*.txt"), p("secret?c.txt"), p("lists/???/????.txt"), p(`lists/\*`), p("lists/*?.txt"),
 		"*", "*.txt", "*/*", "lists/*", "/*", "/*/*", "/etc/host*", r + "*", r + "/lists*",
@@ -2419,8 +2443,8 @@ func c17Run(t *testing.T, rep *verifkit.Report, strace bool) {
 	rep.Assume("a read is recognised by content: every tree file holds a unique rule, looked for in stored list files, response bodies, rule counts and CheckHost")
 
 	fixed, pool := c17PatternPool(tr.root)
-	nRandomCfg := verifkit.Pick(10, 110)
-	nRandomLoc := verifkit.Pick(75, 240)
+	nRandomCfg := verifkit.Pick(5, 110)
+	nRandomLoc := verifkit.Pick(52, 240)
 	cfgs := append([]c17Cfg(nil), fixed...)
 	for i := 0; i < nRandomCfg; i++ {
 		n := 1 + rng.Intn(4)
@@ -2431,7 +2455,11 @@ func c17Run(t *testing.T, rep *verifkit.Report, strace bool) {
 		cfgs = append(cfgs, c17Cfg{Kind: fmt.Sprintf("random-%d-patterns", n), Patterns: ps})
 	}
 	for _, cfg := range cfgs {
-		env.runConfig(rng, cfg, nRandomLoc)
+		n := nRandomLoc
+		if strings.HasPrefix(cfg.Kind, "match-syntax:") {
+			n /= 3 // the plain paths of every file decide here
+		}
+		env.runConfig(rng, cfg, n)
 	}
 
 	// Conclusiveness.
@@ -2465,7 +2493,7 @@ func c17Run(t *testing.T, rep *verifkit.Report, strace bool) {
 
 func TestVerifC17(t *testing.T) {
 	rep := verifkit.New("C17", "paths",
-		"case = (safe_fs_patterns list, location string, entry point in {add_url, set_url, set_url on a disabled list then enabling it, refresh of a list written into the configuration, second refresh, and the same refresh after a restart on a data directory that already holds cached files for the list ids: written by the monitor / left by an earlier instance that refreshed http lists under those ids / left by an earlier instance with a wider pattern list and the same locations}); the operation runs against a real DNSFilter (captured HTTP handlers) over a tree of 36 files that each hold a unique rule and whose text names neighbouring files in include-like syntaxes (plus FIFOs and HTML/binary files outside the patterns as content-independent observers at add_url/set_url); content of a file may become observable (stored list file, response body, rule count, CheckHost) only if its cleaned absolute path matches a pattern by filepath.Match; non-trivial = some reading of the location names an existing file; distinct by (entry point, patterns, location, block/allow)")
+		"case = (safe_fs_patterns list, location string, entry point in {add_url, set_url, set_url on a disabled list then enabling it, refresh of a list written into the configuration, second refresh, and the same refresh after a restart on a data directory that already holds cached files for the list ids: written by the monitor / left by an earlier instance that refreshed http lists under those ids / left by an earlier instance with a wider pattern list and the same locations}); the operation runs against a real DNSFilter (captured HTTP handlers) over a tree of 51 files that each hold a unique rule and whose text names neighbouring files in include-like syntaxes (plus FIFOs and HTML/binary files outside the patterns as content-independent observers at add_url/set_url); content of a file may become observable (stored list file, response body, rule count, CheckHost) only if its cleaned absolute path matches a pattern by filepath.Match; non-trivial = some reading of the location names an existing file; distinct by (entry point, patterns, location, block/allow)")
 	defer func() {
 		if err := rep.Write(); err != nil {
 			t.Fatal(err)
